@@ -114,6 +114,8 @@ inline std::string structCase(Src &s, const World &W, Inst **keep = nullptr, std
         std::string msg = genMessage(s, W, mo);
         if (s.prob(1, 3)) mutateBytes(s, msg);
         stream += msg;
+        // the shipped handlers are part of the library too (the grammar above only draws from the scripted entries)
+        if (s.prob(1, 5)) stream += s.pick(std::vector<std::string>{"*IDN?\n", "SYST:ERR?\n", "*ESR?;*STB?\n", "STAT:PRES;*CLS\n", "*TST?\n", "SYST:VERS?\n", "*ESE 255;*SRE 255\n", "STAT:OPER:ENAB 65535;STAT:QUES:ENAB 1\n", "*OPC;*OPC?;*WAI\n", "SYST:ERR:COUN?\n", "*RST\n"});
     }
     // half of the inputs get a buffer that holds the whole stream, the others a small one (overrun / boundary paths)
     size_t bufLen = bufSel < 2 ? stream.size() + 1 + bufSel : bufSel == 2 ? bufRaw : std::min((size_t) 300, stream.size() / 2 + 2);
@@ -122,6 +124,7 @@ inline std::string structCase(Src &s, const World &W, Inst **keep = nullptr, std
     InstCfg fk = fuzzCfg(W, bufLen, queueLen, heapLen);
     fk.decoy = s.prob(1, 4);            // a second instrument (other table positions, shorter table, other units) is fed the same chunks first
     fk.noOptionalCallbacks = s.prob(1, 8);
+    fk.idnVariant = s.prob(1, 3) ? (int) s.range(1, 2) : 0;
     held.reset(new Inst(fk));
     Inst &I = *held;
     I.cfg.traceValues = false;
